@@ -235,6 +235,7 @@ func (i *inspect) fks(ctx context.Context, t *schema.Table) error {
 	if err != nil {
 		return fmt.Errorf("sqlite: querying %q foreign-keys: %w", t.Name, err)
 	}
+	defer rows.Close()
 	if err := i.addFKs(t, rows); err != nil {
 		return fmt.Errorf("sqlite: scan %q foreign-keys: %w", t.Name, err)
 	}
